@@ -1,4 +1,3 @@
-from functools import lru_cache
 from pathlib import Path
 
 import click
@@ -9,17 +8,17 @@ from ..filtering import filter_names
 
 
 def touch_workflow(endpoints, graph, spec_hashes):
-    @lru_cache(maxsize=None)
-    def _visit(target):
-        for dep in graph.dependencies[target]:
-            _visit(dep)
+    visited = set()
+    for endpoint in endpoints:
+        # Graph.dfs() yields dependencies before the targets depending on them.
+        for target in graph.dfs(endpoint):
+            if target in visited:
+                continue
+            visited.add(target)
 
-        spec_hashes.update(target)
-        for path in target.flattened_outputs():
-            Path(path).touch(exist_ok=True)
-
-    for target in endpoints:
-        _visit(target)
+            spec_hashes.update(target)
+            for path in target.flattened_outputs():
+                Path(path).touch(exist_ok=True)
 
 
 @click.command()
